@@ -152,6 +152,8 @@ class Kind:
         return False
     def probe(self, H):               # look at the implementation once before generating (model variant selection)
         pass
+    def where(self, x):               # text appended to a round-trip violation (e.g. the address of the structure)
+        return ""
     def rt_ok(self, x, got):          # round-trip oracle on Go's decoded value
         return got == [0, self.proj(x)]
     n_quick = None                    # number of generated values in the quick tier (default: run()'s n_values)
@@ -458,6 +460,31 @@ def csbe(sb):
     return "true" if sb and sb.get("be") else "false"
 
 
+# Addresses at which object headers are placed (ObjectHeaderWriter.WriteTo accepts any address and the
+# library's allocator does not align): every residue modulo 8, the root group header address of a version 0
+# file (96) and 96 + 3 bytes of int8 data, page-sized addresses with odd residues, plus random ones.
+OHDR_ADDRS = [0, 1, 2, 3, 4, 5, 6, 7, 8, 48, 96, 99, 100, 0x1001, 0x1003, 0x1007]
+
+
+def pick_ohdr_addr(rng, i):
+    if i % 2 == 0:
+        return OHDR_ADDRS[(i // 2) % len(OHDR_ADDRS)]
+    r = rng.random()
+    if r < 0.5:
+        return rng.choice(OHDR_ADDRS)
+    if r < 0.85:
+        return rng.randrange(0, 600)
+    return rng.randrange(600, 20000)
+
+
+def ohdr_pre(rng, addr):
+    """the bytes in front of the header: arbitrary for small addresses; zeros followed by 24 arbitrary bytes for
+    large ones (long literals are slow to read on the Coq side, runs of one byte are transported as `repeat`)"""
+    if addr <= 128:
+        return rbytes(rng, addr)
+    return bytes(addr - 24) + rbytes(rng, 24, nonzero=True)
+
+
 class OhdrV2(Kind):
     name = "ohdr"
     label = "ohdr_v2"
@@ -482,18 +509,37 @@ class OhdrV2(Kind):
         return msgs
 
     def gen(self, rng, i):
-        sb = dict(v=2, o=8, l=8, be=rng.random() < 0.2, addr=rng.choice([0, 0, 1, 8, 48, 100]))
+        addr = pick_ohdr_addr(rng, i)
+        sb = dict(v=2, o=8, l=8, be=rng.random() < 0.2, addr=addr)
         flags = rng.choice([0, 0, 0, 8, 64, 128, 200])
         msgs = self.gen_msgs(rng, 255, 4)
         if i < 3:
             msgs = [dict(type=12, data=rbytes(rng, 251).hex())]        # exactly 255 bytes of messages
+        elif i % 4 == 1:
+            msgs = self.gen_multi(rng, 255, 4)
         suf = rbytes(rng, rng.choice([1, 2, 8, 16]))
-        return dict(_sb=sb, version=2, flags=flags, refcount=rng.choice([0, 1, 7]), msgs=msgs, suf=suf.hex())
+        return dict(_sb=sb, version=2, flags=flags, refcount=rng.choice([0, 1, 7]), msgs=msgs, suf=suf.hex(),
+                    pre=ohdr_pre(rng, addr).hex())
+
+    def gen_multi(self, rng, budget, hdr):
+        """three to six messages of pairwise different sizes, at least two of them not a multiple of 8 (the shape
+        of a dataset header: datatype 12, dataspace 8 + 8 * rank, layout 18 bytes)"""
+        n = rng.choice([3, 3, 4, 5, 6])
+        lens = rng.sample([1, 2, 3, 5, 7, 9, 12, 13, 17, 18, 23, 31], 2) + rng.sample([4, 6, 8, 10, 16, 20, 24, 27, 33, 40], n - 2)
+        rng.shuffle(lens)
+        msgs = []
+        for ln in lens:
+            room = budget - hdr - sum(hdr + len(m["data"]) // 2 for m in msgs)
+            if room < 1:
+                break
+            t = rng.choice([1, 3, 8, 5, 17, 2, 10, 13])
+            msgs.append(dict(type=t, data=rbytes(rng, min(ln, room)).hex()))
+        return msgs
 
     def invalid(self, rng):
         sb = dict(v=2, o=8, l=8, be=False, addr=0)
-        return [dict(_sb=sb, version=2, flags=0, refcount=1, msgs=[dict(type=1, data="00" * 252)], suf="00"),
-                dict(_sb=sb, version=2, flags=0, refcount=1, msgs=[dict(type=1, data="00" * 200), dict(type=1, data="00" * 48)], suf="00")]
+        return [dict(_sb=sb, version=2, flags=0, refcount=1, msgs=[dict(type=1, data="00" * 252)], suf="00", pre=""),
+                dict(_sb=sb, version=2, flags=0, refcount=1, msgs=[dict(type=1, data="00" * 200), dict(type=1, data="00" * 48)], suf="00", pre="")]
 
     def coq_msgs(self, x):
         return cl("{| hm_type := %d; hm_data := %s |}" % (m["type"], cbytes(m["data"])) for m in x["msgs"])
@@ -501,7 +547,7 @@ class OhdrV2(Kind):
         return "{| oh_version := %d; oh_flags := %d; oh_refcount := %d; oh_msgs := %s |}" % (
             x["version"], x["flags"], x["refcount"], self.coq_msgs(x))
     def enc_expr(self, x):
-        return "(zeros (N.to_nat %d) ++ enc_ohdr_v2 %s ++ %s)%%list" % (x["_sb"]["addr"], self.coq(x), cbytes(x["suf"]))
+        return "(%s ++ enc_ohdr_v2 %s ++ %s)%%list" % (cbytes(x["pre"]), self.coq(x), cbytes(x["suf"]))
     def encok_expr(self, x):
         return "encok_ohdr_v2 " + self.coq(x)
     def wf_expr(self, x):
@@ -510,6 +556,8 @@ class OhdrV2(Kind):
         return "oval val_ohdr' (dec_ohdr %s %s %d)" % (csbe(sb), cbytes(hexs), sb["addr"])
     def focus(self, x):
         return x["_sb"]["addr"]
+    def where(self, x):
+        return " - e.g. %d messages written at address %d (= %d mod 8)" % (len(x["msgs"]), x["_sb"]["addr"], x["_sb"]["addr"] % 8)
     def proj(self, x):
         cur = x["_sb"]["addr"] + 7
         ms, name, ref = [], "", None
@@ -523,20 +571,27 @@ class OhdrV2(Kind):
                 ref = int.from_bytes(d[:4], "big" if x["_sb"]["be"] else "little")
         return [2, x["flags"], 1 if ref is None else ref, name, ms]
     def shape(self, x):
-        return "n=%d,flags=%d,addr=%d" % (len(x["msgs"]), x["flags"], x["_sb"]["addr"])
+        a = x["_sb"]["addr"]
+        return "n=%d,addr%%8=%d,addr=%s" % (min(len(x["msgs"]), 3), a % 8, a if a in OHDR_ADDRS else "other")
 
 
 class OhdrV1(OhdrV2):
     label = "ohdr_v1"
 
     def gen(self, rng, i):
-        sb = dict(v=0, o=8, l=8, be=False, addr=rng.choice([0, 0, 8, 96]))
+        # the reader steps from message to message relative to the start of the message block (as the writer
+        # pads), NOT to absolute multiples of 8: the two differ exactly at addresses that are not multiples of 8
+        addr = pick_ohdr_addr(rng, i)
+        sb = dict(v=0, o=8, l=8, be=False, addr=addr)
         if i % 4 == 0:
             msgs = [dict(type=17, data=rbytes(rng, 16).hex())]          # what the library itself writes
+        elif i % 4 == 1:
+            msgs = self.gen_multi(rng, 400, 8)
         else:
             msgs = [m for m in self.gen_msgs(rng, 400, 8) if m["type"] != 16]
-        suf = rbytes(rng, rng.choice([0, 1, 8, 16]))
-        return dict(_sb=sb, version=1, flags=0, refcount=rng.choice([0, 1, 7, (1 << 32) - 1]), msgs=msgs, suf=suf.hex())
+        suf = rbytes(rng, rng.choice([0, 1, 8, 16, 64]))
+        return dict(_sb=sb, version=1, flags=0, refcount=rng.choice([0, 1, 7, (1 << 32) - 1]), msgs=msgs, suf=suf.hex(),
+                    pre=ohdr_pre(rng, addr).hex())
 
     def invalid(self, rng):
         return []
@@ -546,15 +601,15 @@ class OhdrV1(OhdrV2):
     repaired = None
     def probe(self, H):
         p = dict(_sb=dict(v=0, o=8, l=8, be=False, addr=0), version=1, flags=0, refcount=1,
-                 msgs=[dict(type=17, data="00" * 16), dict(type=1, data="00" * 16)], suf="")
+                 msgs=[dict(type=17, data="00" * 16), dict(type=1, data="00" * 16)], suf="", pre="")
         r = vlib.run_harness(H, "c11", [dict(kind=self.name, val=self.go(p), sb=p["_sb"])])[0]
         field = int.from_bytes(bytes.fromhex(r["enc"])[8:12], "little")
         if field not in (32, 48):
             raise RuntimeError("object header v1 size field of the probe is %d (expected 32 or 48)" % field)
         self.repaired = field == 48
     def enc_expr(self, x):
-        return "(zeros (N.to_nat %d) ++ enc_ohdr_v1_gen %s %s ++ %s)%%list" % (
-            x["_sb"]["addr"], "true" if self.repaired else "false", self.coq(x), cbytes(x["suf"]))
+        return "(%s ++ enc_ohdr_v1_gen %s %s ++ %s)%%list" % (
+            cbytes(x["pre"]), "true" if self.repaired else "false", self.coq(x), cbytes(x["suf"]))
     def encok_expr(self, x):
         return None
     def wf_expr(self, x):
@@ -570,6 +625,66 @@ class OhdrV1(OhdrV2):
                 name = d.split(b"\0")[0].hex()
         return [1, 0, x["refcount"], name, ms]
 
+
+
+class OhdrV1ContK(OhdrV2):
+    """Version 1 object header continued in one continuation block; header and block at arbitrary addresses
+    (all residues modulo 8 for both).  The image is assembled by the harness with the library's own version 1
+    writer (a continuation block is the message part of a version 1 header); core.ReadObjectHeader must return
+    the header block's messages (the continuation message among them) followed by the block's messages.
+    Gate: the Python projection of what was encoded (no Coq model of the version 1 continuation queue:
+    Model/CodecOhdr.v parse_v1 covers the first block only)."""
+    name = "ohdrv1cont"
+    label = "ohdr_v1_cont"
+    no_model = True
+    n_quick = 96
+    CT = [1, 3, 8, 5, 17, 2, 10, 11, 255]
+
+    def msgs(self, rng, nmin, nmax):
+        out = []
+        for _ in range(rng.randint(nmin, nmax)):
+            out.append(dict(type=rng.choice(self.CT), data=rbytes(rng, rng.choice([1, 2, 3, 4, 7, 8, 9, 12, 16, 18, 24, 33, 100])).hex()))
+        return out
+
+    @staticmethod
+    def span(ms):
+        return sum((8 + len(m["data"]) // 2 + 7) // 8 * 8 for m in ms)
+
+    def gen(self, rng, i):
+        # the first 64 values: every pair (header address mod 8, block address mod 8)
+        if i < 64:
+            addr, want = rng.choice([a for a in OHDR_ADDRS if a % 8 == i % 8]), i // 8
+        else:
+            addr, want = pick_ohdr_addr(rng, i) % 5000, rng.randrange(8)
+        a0, b0 = self.msgs(rng, 0, 3), self.msgs(rng, 0, 2)
+        blk = self.msgs(rng, 2, 5)
+        # the block address takes every residue modulo 8, whatever the header's address is
+        blk_addr0 = addr + 16 + self.span(a0) + 24 + self.span(b0)
+        gap = (want - blk_addr0) % 8 + 8 * rng.choice([0, 0, 1, 5])
+        between = rbytes(rng, gap)
+        blk_addr, blk_size = blk_addr0 + gap, self.span(blk)
+        cont = dict(type=16, data=(blk_addr.to_bytes(8, "little") + blk_size.to_bytes(8, "little")).hex())
+        return dict(_sb=dict(v=0, o=8, l=8, be=False, addr=addr), refcount=rng.choice([0, 1, 7]), pre=ohdr_pre(rng, addr).hex(),
+                    msgs=a0 + [cont] + b0, between=between.hex(), blk=blk, suf=rbytes(rng, rng.choice([0, 1, 8, 40])).hex(),
+                    _blk_addr=blk_addr)
+
+    def invalid(self, rng):
+        return []
+    def wf_expr(self, x):
+        return None
+    def proj(self, x):
+        out = []
+        for start, ms in ((x["_sb"]["addr"] + 16, x["msgs"]), (x["_blk_addr"], x["blk"])):
+            cur = start
+            for m in ms:
+                out.append([m["type"], cur, m["data"]])
+                cur += (8 + len(m["data"]) // 2 + 7) // 8 * 8
+        return [1, 0, x["refcount"], "", out]
+    def where(self, x):
+        return " - e.g. header at address %d (= %d mod 8), continuation block at %d (= %d mod 8)" % (
+            x["_sb"]["addr"], x["_sb"]["addr"] % 8, x["_blk_addr"], x["_blk_addr"] % 8)
+    def shape(self, x):
+        return "hdr%%8=%d,blk%%8=%d" % (x["_sb"]["addr"] % 8, x["_blk_addr"] % 8)
 
 
 class OhdrContK(OhdrV2):
@@ -709,6 +824,8 @@ class OhdrContK(OhdrV2):
         return [2, x["flags"], 1 if ref is None else ref, name, ms]
     def shape(self, x):
         return "chunks=%d,os=%d,ls=%d,be=%d" % (len(x["ks"]), x["_sb"]["o"], x["_sb"]["l"], x["_sb"]["be"])
+    def where(self, x):
+        return " - e.g. first chunk at address %d" % x["_sb"]["addr"]
 
     def extra_malformed(self, rng, x, r):
         """the reader's refusals and the shapes outside the chain grammar: links back to a visited chunk or to
@@ -1164,7 +1281,7 @@ class FilterPipeK(Kind):
         return "n=%d" % len(x["filters"])
 
 
-KINDS = [Dataspace(), Layout(), DatatypeK(), DatatypeVlen(), AttributeK(), SuperblockK(), OhdrV2(), OhdrV1(), OhdrContK(),
+KINDS = [Dataspace(), Layout(), DatatypeK(), DatatypeVlen(), AttributeK(), SuperblockK(), OhdrV2(), OhdrV1(), OhdrV1ContK(), OhdrContK(),
          LinkK(), Link2K(), LinkInfoK(), AttrInfoK(), SymtabK(), CompoundK(), CompoundTreeK(), CompoundGreedy(), ArrayK(), EnumK(), FilterPipeK()]
 
 # kinds whose encoder/decoder pair is known not to round-trip: id of the KNOWN_FINDINGS entry
@@ -1275,8 +1392,8 @@ def run(ctx):
                 known.append("%s: Parse(Encode(x)) != x for %d/%d values, e.g. %s (%s)" % (
                     K.label, len(rt_bad), len(vals), json.dumps(K.go(x))[:120], kid))
             else:
-                viol.append(dict(what="%s: decoding the encoded bytes does not give the value back (%d of %d values)" % (
-                    K.label, len(rt_bad), len(vals)),
+                viol.append(dict(what="%s: decoding the encoded bytes does not give the value back (%d of %d values)%s" % (
+                    K.label, len(rt_bad), len(vals), K.where(x)),
                     failing_input=dict(kind=K.name, value=K.go(x), sb=x.get("_sb")),
                     encoded=r.get("enc"), decoded=got, expected=want))
         # malformed stream
